@@ -3,6 +3,8 @@ Property C15 — get_state / set_state restore the global environment exactly.
 -/
 import ChaiVerif.Model.Env
 import ChaiVerif.Gen.Env
+import ChaiVerif.Lemmas.FlatMap
+import ChaiVerif.Gen.FlatMap
 namespace ChaiVerif.C15
 open ChaiVerif
 
@@ -207,5 +209,77 @@ theorem readd_after_restore (e : Env) (n : Nat) (f : Fn) (h : e.functions.lookup
 /-- `use` after a restore re-evaluates a file exactly when the snapshot did not record it. -/
 theorem use_after_restore (e : Env) (file : Nat) : (useFile1 e file).2 = !e.usedFiles.contains file := by
   simp [useFile1]; split <;> simp_all
+
+/-! ### the tables' hinted lookup: a remembered slot never changes the answer
+
+Call sites remember the slot in which they found a name (`Fun_Call` / `Dot_Access` nodes, `get_function_object_int`), and `set_state` replaces the
+tables wholesale: code parsed before a restore then asks with slots of a table that no longer exists. -/
+section FlatMapSection
+open ChaiVerif.FlatMap
+variable {K V : Type} [DecidableEq K]
+
+/-- **a hint never changes the answer** when the condition tests both the bounds and the key, whatever the hint is (stale, out of range,
+    left over from a table that has since been replaced) -/
+theorem findHint_is_find (d : List (K × V)) (k : K) (hint : Nat) (hd : KeysDistinct d) : findHint true true d k hint = find d k := by
+  unfold findHint
+  cases he : d[hint]? with
+  | none => simp
+  | some e =>
+    by_cases hk : e.1 = k
+    · have hlt : hint < d.length := by
+        rcases Nat.lt_or_ge hint d.length with h | h
+        · exact h
+        · rw [List.getElem?_eq_none h] at he; cases he
+      have := find_eq_of_distinct d k hint e hd he hk
+      simp [hlt, hk, this]
+    · simp [hk]
+
+/-- without the key test a stale hint answers with another key's slot -/
+theorem findHint_without_key_test_counterexample :
+    findHint true false [((1 : Nat), "a"), (2, "b")] 1 1 = some 1 ∧ find [((1 : Nat), "a"), (2, "b")] 1 = some 0 := by decide
+
+/-- the table never holds a key twice: `insert_or_assign` keeps the keys distinct -/
+theorem insertOrAssign_distinct (d : List (K × V)) (k : K) (v : V) (hd : KeysDistinct d) : KeysDistinct (insertOrAssign d k v) := by
+  unfold insertOrAssign
+  cases h : find d k with
+  | none =>
+    simp only []
+    unfold KeysDistinct at hd ⊢
+    simp only [List.map_append, List.map_cons, List.map_nil]
+    rw [List.nodup_append]
+    refine ⟨hd, by simp, ?_⟩
+    intro a ha b hb
+    simp at hb
+    subst hb
+    intro hab
+    subst hab
+    exact find_none d a h ha
+  | some i =>
+    simp only []
+    obtain ⟨hlt, e, he, hk⟩ := find_some_lt d k i h
+    unfold KeysDistinct at hd ⊢
+    have : (d.set i (k, v)).map (·.1) = d.map (·.1) := by
+      rw [List.map_set]
+      apply List.ext_getElem?
+      intro j
+      by_cases hj : j = i
+      · subst hj
+        simp [hlt]
+        rw [List.getElem?_eq_getElem hlt] at he
+        simp at he
+        rw [he]; exact hk.symm
+      · simp [Ne.symm hj]
+    rw [this]
+    exact hd
+
+
+/-- **the hinted lookup of the current source is the plain lookup**: the condition of `QuickFlatMap::find(key, hint)`, read off the source on every
+    run (extract/e_flatmap.py: a conjunction of the bounds test and the key test, falling back to `find(key)`), makes the hinted lookup equal to the
+    unhinted one for every table with distinct keys, every key and EVERY hint — stale, out of range, or from a table replaced by `set_state`. -/
+theorem hinted_lookup_is_lookup (d : List (K × V)) (k : K) (hint : Nat) (hd : KeysDistinct d) :
+    findHint Gen.flatMapHintChecksBounds Gen.flatMapHintChecksKey d k hint = find d k :=
+  findHint_is_find d k hint hd
+
+end FlatMapSection
 
 end ChaiVerif.C15
